@@ -191,6 +191,8 @@ def _scen_ignored(kind):
             p.get_files()
             p.get_file("helper.py").move("attic/helper.py")
             fn = lambda: rename.Rename(p, p.get_file("core.py"), 4).get_changes("calc")
+        # documented meaning of the patterns, independent of rope's matcher: `attic` ignores the folder, `gen//*_pb2.py` any depth below gen
+        fn.must_stay = {"gen/deep/x_pb2.py", "attic/old.py", "attic/helper.py"}
         return p, fn
     return run
 
@@ -244,6 +246,9 @@ def announced_case(key):
                         "clause": "all changed resources are inside the project", "observed": {"resource": r.real_path}}
             if p.is_ignored(r):
                 return {"status": "fail", "why": "the change announces the ignored resource %s" % r.path, "clause": "never an ignored module", "observed": {"resource": r.path}}
+            if r.path in getattr(fn, "must_stay", ()):
+                return {"status": "fail", "why": "the change announces %s, which the project's ignored_resources patterns exclude" % r.path,
+                        "clause": "never an ignored module", "observed": {"resource": r.path}}
             announced.add(os.path.join("proj", r.path))
         allowed = getattr(fn, "allowed", None)
         if allowed is not None and not {a[5:] for a in announced} <= allowed:
